@@ -5,6 +5,7 @@ pub mod c02_net;
 pub mod c11;
 pub mod c12;
 pub mod c13;
+pub mod c18;
 pub mod stream_model;
 
 use crate::engine::{CheckResult, Ctx, Fail, Report};
@@ -79,6 +80,18 @@ pub fn all() -> Vec<PropDef> {
             ],
             run: c13::run,
             replay: c13::replay,
+            child: None,
+        },
+        PropDef {
+            id: "C18",
+            level: "exploration",
+            rule: c18::RULE,
+            assumptions: &[
+                "insert is only issued for an absent peer id (documented uniqueness precondition; the registry debug-asserts it)",
+                "concurrent histories are sampled on real threads and decided by an exhaustive Wing-Gong linearization search of each observed history",
+            ],
+            run: c18::run,
+            replay: c18::replay,
             child: None,
         },
     ]
